@@ -66,17 +66,33 @@ func (s *session) Connection() net.Conn {
 }
 
 func (s *session) Decrypter() crypto.Decrypter {
-	// Return the next cryptographer when possible
-	// This allows sessions to switch encryption
+	s.mu.Lock()
+	defer s.mu.Unlock()
+
+	// A client encrypts everything it sends after the request which
+	// set the next cryptographer (pair verify finish request).
 	if s.nextCryptographer != nil {
-		s.cryptographer = s.nextCryptographer
-		s.nextCryptographer = nil
+		return s.nextCryptographer
 	}
 
 	return s.cryptographer
 }
 
 func (s *session) Encrypter() crypto.Encrypter {
+	s.mu.Lock()
+	defer s.mu.Unlock()
+
+	// The response to the request which set the next cryptographer is the last
+	// one which is sent with the current (or no) encryption. Everything which
+	// is sent afterwards uses the next cryptographer – independent of when
+	// data is read from the connection.
+	if s.nextCryptographer != nil {
+		current := s.cryptographer
+		s.cryptographer = s.nextCryptographer
+		s.nextCryptographer = nil
+		return current
+	}
+
 	return s.cryptographer
 }
 
@@ -90,9 +106,11 @@ func (s *session) PairVerifyHandler() PairVerifyHandler {
 
 func (s *session) SetCryptographer(c crypto.Cryptographer) {
 	// Temporarily set the cryptographer as the nextCryptographer
-	// The nextCryptographer is used the next time Decrypter() is called.
-	// Otherwise the Encrypter() encrypts differently than the previous Decrypter()
+	// The nextCryptographer is used for everything which is received from now on,
+	// and for everything which is sent after the pending response.
+	s.mu.Lock()
 	s.nextCryptographer = c
+	s.mu.Unlock()
 }
 func (s *session) SetPairSetupHandler(c ContainerHandler) {
 	s.pairStartHandler = c
